@@ -754,6 +754,27 @@ pub fn scenarios(prop: &str, tier: &str) -> Vec<Arc<dyn Scenario>> {
                 }
                 push(format!("{prop}-t16-aggressive-33"), mk(16, 1, 0.0, 1.0), &a, bs(3, 3, 1, 1, 1), vec![vec![]]);
             }
+            if !quick {
+                // one ingestion large enough (> 64 MiB of index data, reached with 60 000-byte keys) to
+                // make the ingestion's table writer rotate: the blob links of the batch are spread over
+                // two tables, which are then dropped separately / merged / recovered
+                let (n, len) = (1200u32, 60_000u32);
+                let mut c = TreeCfg::small(vec![]);
+                c.gen_keys = Some((n, len));
+                c.blob = Some(BlobCfg { threshold: 16, file_target: 64 << 20, staleness: 0.25, age_cutoff: 1.0 });
+                c.block_size = 4096;
+                let key = |i: u32| {
+                    let mut k = format!("{i:08}").into_bytes();
+                    k.resize(len as usize, b'x');
+                    k
+                };
+                let mut am = Alphabet::default();
+                am.drop_ranges = vec![(Bnd::Unb, Bnd::Inc(key(1150))), (Bnd::Exc(key(1150)), Bnd::Unb)];
+                am.major = vec![u64::MAX];
+                am.wms = vec![Wm::Tight];
+                am.reopen = true;
+                push(format!("{prop}-bulk-ingest-rotation"), c, &am, bs(0, 1, 0, 1, 2), vec![vec![Op::IngestRange { lo: 0, hi: n }]]);
+            }
             if prop == "C09" {
                 // compaction filter on the blob tree: Remove on a, ReplaceBig on b
                 use crate::cfilter::VerdictSpec;
